@@ -970,6 +970,9 @@ inductive Op
   | ctorLit (k : Nat) (l : Lit)          -- root k = `new Var(x)`
   | ctorType (k : Nat) (t : Nat)         -- root k = `new Var(Var::Type)`
   | ctorKV (k : Nat) (key : Bytes) (q : Path)   -- root k = `new Var(key, q)`
+  | ctorArr (k : Nat) (lits : List Lit)         -- root k = `new Var(Array<T>{..})` / `new Var{x1, x2, ..}` (initializer_list<T>)
+  | ctorDic (k : Nat) (pairs : List (Bytes × Lit))   -- root k = `new Var(Dic<T>)` built by `d[key] = x` in order
+  | ctorVars (k : Nat) (qs : List Path)         -- root k = `new Var(Var::array({q1, q2, ..}))`
 deriving DecidableEq, Repr, Inhabited
 
 def slotV (σ : State) (k : Nat) : V := σ.slots.getD k V.none
@@ -1150,6 +1153,50 @@ def opCtorKV (σ : State) (k : Nat) (key : Bytes) (q : Path) : Except Err State 
       let (h2, id) := allocB h1 { emptyBlock true with items := [(key, src)] }
       replaceSlot { σ with heap := h2 } k (.obj id)
 
+/-- capacity after `NEW_ARRAY/NEW_DIC` (3) and `resize(n)` / `reserve(n)`: unchanged up to 3, else `max(2*3, n)` -/
+def litCap (n : Nat) : Nat := if n ≤ 3 then 3 else max 6 n
+
+/-- a `Dic` filled by `d[key] = x` for each pair in order (a later pair with the same key overwrites) -/
+def dicOfPairs : List (Bytes × V) → List (Bytes × V) → Except Err (List (Bytes × V))
+  | acc, [] => .ok acc
+  | acc, (k, v) :: rest =>
+    match Map.set Map.cmpBytes acc k v with
+    | none => .error .oob
+    | some acc' => dicOfPairs acc' rest
+
+/-- `template<class T> Var(const Array<T>& v)` and `Var(std::initializer_list<T>)`: NEW_ARRAY; resize(n);
+`(*_a)[i] = v[i]` (typed assignment into fresh NONE elements) -/
+def opCtorArr (σ : State) (k : Nat) (lits : List Lit) : Except Err State :=
+  let (h1, id) := allocB σ.heap { isObj := false, items := lits.map (fun l => ([], l.toV)), cap := litCap lits.length, rc := 1 }
+  replaceSlot { σ with heap := h1 } k (.arr id)
+
+/-- `template<class T> Var(const Dic<T>& x)`: NEW_DIC; reserve(x.length()); `_o->set(k, v)` for every entry -/
+def opCtorDic (σ : State) (k : Nat) (pairs : List (Bytes × Lit)) : Except Err State :=
+  match dicOfPairs [] (pairs.map fun kl => (kl.1, kl.2.toV)) with
+  | .error e => .error e
+  | .ok items =>
+    let (h1, id) := allocB σ.heap { isObj := true, items := items, cap := litCap items.length, rc := 1 }
+    replaceSlot { σ with heap := h1 } k (.obj id)
+
+/-- copy-construct every value of a list -/
+def copyAll : Heap → List V → Except Err Heap
+  | h, [] => .ok h
+  | h, v :: rest =>
+    match copyV h v with
+    | .error e => .error e
+    | .ok h1 => copyAll h1 rest
+
+/-- `Var::array({q1, q2, ..})` = `Var(Array<Var>(b))`: a new block of `max(n, 3)` with copies of the elements -/
+def opCtorVars (σ : State) (k : Nat) (qs : List Path) : Except Err State :=
+  match mapE qs (cget σ) with
+  | .error e => .error e
+  | .ok vals =>
+    match copyAll σ.heap vals with
+    | .error e => .error e
+    | .ok h1 =>
+      let (h2, id) := allocB h1 { isObj := false, items := vals.map (fun v => ([], v)), cap := max vals.length 3, rc := 1 }
+      replaceSlot { σ with heap := h2 } k (.arr id)
+
 /-- the statements on root variables -/
 def rootOp (σ : State) : Op → Except Err State
   | .clone k q => opClone σ k q
@@ -1158,6 +1205,9 @@ def rootOp (σ : State) : Op → Except Err State
   | .ctorLit k l => replaceSlot σ k l.toV
   | .ctorType k ty => opCtorType σ k ty
   | .ctorKV k key q => opCtorKV σ k key q
+  | .ctorArr k lits => opCtorArr σ k lits
+  | .ctorDic k pairs => opCtorDic σ k pairs
+  | .ctorVars k qs => opCtorVars σ k qs
   | _ => .error .badarg
 
 /-- the mutable path a statement starts with -/
